@@ -70,7 +70,7 @@ Truthy(x) == x.k # 0
 \* calls are all visible in the results
 Node(f, a) == [f |-> f, a |-> a]
 Apply(f, a) ==
-  CASE f = "pred" -> Truthy(a[1])
+  CASE f = "pred" -> ~Truthy(a[1])     \* deliberately not the items' own truth value (what predicate None means)
     [] f = "key"  -> a[1].k
     [] f = "key2" -> a[1].k \div 2        \* ties items (2 and 3) that differ in their own order
     [] OTHER      -> Node(f, a)
@@ -374,7 +374,8 @@ AllAny(s, r, isAll) ==
 StartV == IF cfg.par.startv = "zero" THEN 0 ELSE Node("startobj", <<>>)
 Sum(s, r) ==
   CASE s.pc = "init" ->
-         IF cfg.par.startv = "str" THEN [s |-> To("end"), eff |-> RaiseX("TypeError")]   \* sum() can't sum strings
+         \* sum() can't sum strings / bytes / bytearrays -- nor instances of their subclasses
+         IF cfg.par.startv \in {"str", "strsub", "bytes", "bytearraysub"} THEN [s |-> To("end"), eff |-> RaiseX("TypeError")]
          ELSE [s |-> [pc |-> "got", acc |-> StartV], eff |-> Pull(1)]
     [] s.pc = "got" ->
          IF r.k = "stop" THEN [s |-> To("end"), eff |-> Return(s.acc)]
@@ -628,7 +629,7 @@ ConfigsOf(t) ==
     [] t \in {"all", "any"} ->
          {[tool |-> t, par |-> NoPar, data |-> d] : d \in DataSets(1, K01)}
     [] t = "sum" ->
-         {[tool |-> t, par |-> [startv |-> v], data |-> d] : v \in {"zero", "obj", "str"}, d \in DataSets(1, K1)}
+         {[tool |-> t, par |-> [startv |-> v], data |-> d] : v \in {"zero", "obj", "str", "strsub", "bytes", "bytearraysub"}, d \in DataSets(1, K1)}
     [] t = "reduce" ->
          {[tool |-> t, par |-> [init |-> b], data |-> d] : b \in BOOLEAN, d \in DataSets(1, K1)}
     [] t \in {"min", "max"} ->
